@@ -11,13 +11,13 @@ import (
 // evalExpr evaluates e with go/constant, taking free operands from lookup. ok=false if e contains anything else.
 func evalExpr(info *types.Info, e ast.Expr, lookup func(ast.Expr) (constant.Value, bool)) (constant.Value, bool) {
 	e = ast.Unparen(e)
-	if tv, ok := info.Types[e]; ok && tv.Value != nil {
-		return tv.Value, true
-	}
 	if lookup != nil {
 		if v, ok := lookup(e); ok {
 			return v, true
 		}
+	}
+	if tv, ok := info.Types[e]; ok && tv.Value != nil {
+		return tv.Value, true
 	}
 	switch x := e.(type) {
 	case *ast.UnaryExpr:
